@@ -190,6 +190,18 @@ def run_model(case_lines, tag):
     return res
 
 
+def run_impl_parallel(case_lines, tag, shards=12, release=False):
+    """independent processes, for the real-runtime cases (each case spends its time waiting)"""
+    import concurrent.futures
+    parts = [case_lines[i::shards] for i in range(shards)]
+    res = {}
+    with concurrent.futures.ThreadPoolExecutor(max_workers=shards) as ex:
+        futs = [ex.submit(run_impl, p, "%s.s%d" % (tag, i), release) for i, p in enumerate(parts) if p]
+        for f in futs:
+            res.update(f.result())
+    return res
+
+
 def run_impl(case_lines, tag, release=False, timeout_per_batch=600):
     """Run the cases on the real code. A crash of the harness process (abort, stack overflow,
     allocation failure) is an observation for the case that was running: `abort(<status>)`."""
